@@ -15,7 +15,7 @@ NAMES = ["a", "a.b", "c-1"]
 SYMS = ["K1", "U1", "R1", "E1", "K2", "U2", "M2e", "D", "Rst", "Kb", "Ce"]
 MKEY = {"v1": "v", "v2": "version", "defaults": "v"}
 ENVROOTS = (b"env", b"env.build", b"env.launch")
-PROBE_SCOPES = ["all", "build", "launch", "process:web", "process:worker", "process:nope"]
+PROBE_SCOPES = ["all", "build", "launch", "process:web", "process:worker", "process:nope", "process:web.1", "process:web.2"]
 PROBE_STARTS = [{}, {b"A": b"s", b"B": b"s", b"PATH": b"s", b"LD_LIBRARY_PATH": b"s"}]
 
 
@@ -32,6 +32,8 @@ def gen_result(r, fail=None):
     spec["sboms"] = [[f, hx(b'{"s":"%s-%d"}' % (f.encode(), r.randrange(1000)))] for f in r.sample(SBOM_FORMATS, r.choice([0, 0, 1, 2, 3]))]
     spec["write_files"] = [[r.choice(["data.txt", "bin/tool", "lib/x.so", "deep/er/f", "include/h.h"]), hx(b"c-%d" % r.randrange(1000))] for _ in range(r.randint(0, 3))]
     spec["delete_files"] = r.sample(["data.txt", "bin/tool", "deep/er/f"], r.choice([0, 0, 1]))
+    # links inside the layer: dangling, to a file, to a directory
+    spec["symlinks"] = [[n, t] for n, t in r.sample([("current", "releases/nowhere"), ("latest", "data.txt"), ("cur-dir", "bin"), ("loop", "loop")], r.choice([0, 0, 1, 2]))]
     return spec
 
 
@@ -225,6 +227,8 @@ def judge(step, rep, pre, post, names, layers, src, sh, case):
             for i in range(1, len(parts)):
                 base.setdefault("/".join(parts[:i]).encode(), ("d", 0o755))
             base[rel.encode()] = ("f", 0o644, bytes.fromhex(h))
+        for n, t in spec.get("symlinks", []):
+            base[n.encode()] = ("l", t.encode())
         for rel in spec["delete_files"]:
             base.pop(rel.encode(), None)
         if non_env_files(v1["dir"]) != base:
@@ -339,7 +343,15 @@ def shard_run(arg):
                 steps, names = [concrete(s, r) for s in item], ["a", "a.b"]
             else:
                 steps, names = random_history(r, item), NAMES
-            run_history(mon, base, "%s%d" % (kind[0], idx), steps, names, sh)
+            try:
+                run_history(mon, base, "%s%d" % (kind[0], idx), steps, names, sh)
+            except vp.ExecutorDied as e:
+                # the process running the library call died (abort / stack overflow / panic inside the call): that is behaviour of
+                # the code under test, witnessed by the history that led to it
+                sh.violation("process-died:%s" % e.req.get("op"), "the process died (status %s) inside %s after the history %r" % (e.status, e.req.get("op"), [s.get("op") for s in steps]),
+                             {"steps": jsonable(steps), "names": names, "died_on": e.req})
+                mon.close()
+                mon = vp.Mon("layers")
             sh.count("histories")
     finally:
         mon.close()
